@@ -520,6 +520,11 @@ class Interp:
         if isinstance(o, types.ModuleType):
             self.ctx.gstore[(id(o.__dict__), name)] = v
             return
+        if isinstance(o, list) and type(o) is not list and (type(o).__module__ or '').startswith('mido'):
+            # a real (concrete) instance of a repo list subclass, e.g. MidiTrack(): properties run their real setter
+            k, d = mro_lookup(type(o), name)
+            if isinstance(d, property) and d.fset is not None:
+                return self.call(d.fset, [o, v], {})
         raise Unsupported('setattr on %r' % (o,))
 
     def delattr(self, o, name):
